@@ -219,8 +219,12 @@ prop('C03', 'loads are linearizable (provenance clause)',
      'loaded pointer outside the debt slots (NO-STASH), and the SeqCst rows of ORD.',
      'Linearizability, real-time order and per-thread monotonicity over histories are NOT decided (properties of executions).')
 
+def _ord_c04(fx, col):
+    O.rule_ord_with_floors(fx, col, only_roles={'cell-rmw', 'debt-payback'})
+
+
 prop('C04', 'writes totally ordered, each old value handed back once',
-     [O.rule_rmw_only, A.rule_store_is_swap, A.rule_swap_shape, L.rule_ledger, L.rule_bypass, R.rule_pay_before_release, A.rule_cas_shape],
+     [_ord_c04, O.rule_rmw_only, A.rule_store_is_swap, A.rule_swap_shape, L.rule_ledger, L.rule_bypass, R.rule_pay_before_release, A.rule_cas_shape],
      'Decides: the container is exactly one atomic variable and every mutation is a single RMW on it, so the write order is '
      'that variable\'s modification order (RMW-ONLY); store = drop(swap) (STORE-IS-SWAP); one count leaves the cell per '
      'successful write and per destruction on every path (LEDGER for swap / compare_and_swap / into_inner / Drop), into_inner '
